@@ -54,6 +54,9 @@ type transcript struct {
 	start func(ctx context.Context, rw io.ReadWriter, st *steps) (*xmpp.Session, error)
 	// script returns the peer's next message (nil: nothing more to say).
 	script func(st *steps, p *wire.Reactive, fresh []byte) []byte
+	// prep, when set, adjusts the per-run state before the run starts (extra
+	// feature doubles)
+	prep func(st *steps)
 }
 
 // steps is per-run state shared by the doubles and the peer script.
@@ -62,6 +65,10 @@ type steps struct {
 	n       int     // script position
 	failAt  int     // position of the failing voluntary double (-1 none)
 	vpos    int     // list position of the voluntary double
+	// an extra feature double configured last, and what the harness (as the
+	// receiving peer) advertises for it next to resource binding
+	extraFeat   func(st *steps) xmpp.StreamFeature
+	extraAdvert string
 }
 
 func hdr(ws bool, ns, from, to, id string) string {
@@ -195,6 +202,50 @@ func voluntary(st *steps, fail bool) xmpp.StreamFeature {
 	}
 }
 
+// callbackFails is a feature double (eligible once authenticated) one of whose
+// callbacks reports an error that is not a transport failure: "list" (the
+// receiving side's advertisement) or "parse" (the initiating side reading the
+// advertisement).  The failure is recorded as a step result.
+func callbackFails(st *steps, which string) xmpp.StreamFeature {
+	return xmpp.StreamFeature{
+		Name:      xml.Name{Space: "urn:verif:cbfail", Local: "cb"},
+		Necessary: xmpp.Authn,
+		List: func(ctx context.Context, e xmlstream.TokenWriter, start xml.StartElement) (bool, error) {
+			if which == "list" {
+				err := errors.New("verif: listing the feature failed")
+				st.results = append(st.results, err)
+				return false, err
+			}
+			if err := e.EncodeToken(start); err != nil {
+				return false, err
+			}
+			return false, e.EncodeToken(start.End())
+		},
+		Parse: func(ctx context.Context, d *xml.Decoder, start *xml.StartElement) (bool, interface{}, error) {
+			if which == "parse" {
+				err := errors.New("verif: parsing the advertised feature failed")
+				st.results = append(st.results, err)
+				return false, nil, err
+			}
+			return false, nil, d.Skip()
+		},
+		Negotiate: func(ctx context.Context, s *xmpp.Session, data interface{}) (xmpp.SessionState, io.ReadWriter, error) {
+			err := errors.New("verif: this double is never selected")
+			st.results = append(st.results, err)
+			return 0, nil, err
+		},
+	}
+}
+
+func withCallbackFailure(tr transcript, which string) transcript {
+	tr.name += "+feature whose " + which + " callback fails"
+	tr.prep = func(st *steps) {
+		st.extraFeat = func(st *steps) xmpp.StreamFeature { return callbackFails(st, which) }
+		st.extraAdvert = `<cb xmlns="urn:verif:cbfail"/>`
+	}
+	return tr
+}
+
 func plainAuth() string {
 	return base64.StdEncoding.EncodeToString([]byte("\x00juliet\x00secret"))
 }
@@ -252,6 +303,9 @@ func fullInitiator(ws bool, withVol bool, volFails bool, s2s bool) transcript {
 				if withVol {
 					fs = append(fs, voluntary(st, volFails))
 				}
+				if st.extraFeat != nil {
+					fs = append(fs, st.extraFeat(st))
+				}
 				return fs
 			}))
 		},
@@ -270,7 +324,7 @@ func fullInitiator(ws bool, withVol bool, volFails bool, s2s bool) transcript {
 					if withVol {
 						vol = `<vol xmlns="urn:verif:vol"/>`
 					}
-					return []byte(h + features(ws, vol+`<bind xmlns="`+bindNS+`"/>`))
+					return []byte(h + features(ws, vol+`<bind xmlns="`+bindNS+`"/>`+st.extraAdvert))
 				}
 			case bytes.Contains(fresh, []byte("<starttls")):
 				return []byte(`<proceed xmlns="` + tlsNS + `"/>`)
@@ -316,6 +370,9 @@ func fullReceiver(ws bool, withVol bool, volFails bool) transcript {
 				}
 				if withVol {
 					fs = append(fs, voluntary(st, volFails))
+				}
+				if st.extraFeat != nil {
+					fs = append(fs, st.extraFeat(st))
 				}
 				return fs
 			}))
@@ -430,6 +487,9 @@ const watchdog = 10 * time.Second
 func runWith(tr transcript, f fault, plainRW bool) result {
 	var res result
 	st := &steps{failAt: -1}
+	if tr.prep != nil {
+		tr.prep(st)
+	}
 	ctx, cancel := context.WithCancel(context.Background())
 	defer cancel()
 	ops := 0
@@ -659,7 +719,9 @@ func TestC04Sweep(t *testing.T) {
 // not be reported as established.
 func TestC04FailingStep(t *testing.T) {
 	ev.Begin(t)
-	for _, tr := range []transcript{fullInitiator(false, true, true, false), fullReceiver(false, true, true), fullInitiator(true, true, true, false), fullReceiver(true, true, true)} {
+	for _, tr := range []transcript{fullInitiator(false, true, true, false), fullReceiver(false, true, true), fullInitiator(true, true, true, false), fullReceiver(true, true, true),
+		withCallbackFailure(fullReceiver(false, false, false), "list"), withCallbackFailure(fullReceiver(true, false, false), "list"), withCallbackFailure(fullReceiver(false, true, false), "list"),
+		withCallbackFailure(fullInitiator(false, false, false, false), "parse"), withCallbackFailure(fullInitiator(true, false, false, false), "parse")} {
 		r := runWith(tr, fault{kind: "none"}, false)
 		ev.Case(true, tr.name+" fault-free", "failing-voluntary-step")
 		base := result{}
